@@ -537,12 +537,19 @@ where
                             utf16_start_column + utf16_len(&self.source[name_range.clone()]);
                         let utf16_column_range = utf16_start_column..utf16_end_column;
 
-                        self.prev_line_info = Some(LineInfo {
-                            utf8_position: span.end,
-                            utf8_byte: name_range.end,
-                            utf16_column: utf16_end_column,
-                            line_range: line_range.clone(),
-                        });
+                        // The line range and the UTF-16 column belong to the line on which the
+                        // name starts; they say nothing about the line on which a multi-line
+                        // name ends.
+                        self.prev_line_info = if span.start.row == span.end.row {
+                            Some(LineInfo {
+                                utf8_position: span.end,
+                                utf8_byte: name_range.end,
+                                utf16_column: utf16_end_column,
+                                line_range: line_range.clone(),
+                            })
+                        } else {
+                            None
+                        };
                         tag = Tag {
                             range,
                             name_range,
